@@ -33,6 +33,14 @@ def oracle(rep, rnd, tier, impl):
         ("def o = <* _str_ = fn(self) error 'S' *>; def f(x) error 'X'; do f(o) catch 'X' 'ok' end", "(s 111 107)"),
         ("def o = <* _str_ = fn(self) 1 / 0 *>; def f(x, y) error [1]; do f(1, o) catch [1] 'ok' end", "(s 111 107)"),
         ("def o = <* _str_ = fn(self) 'OBJ' *>; string(o) + string([o])", "(s 79 66 74 91 79 66 74 93)"),
+        # a block whose only statement is a block: an error raised by a handler (or by evaluating a catch value) of the inner one
+        # belongs to the handlers of the outer one
+        ("do do error 'io' catch 'io' error 'wrapped' end catch 'wrapped' 'outer' end", "(s 111 117 116 101 114)"),
+        ("def l = []; def f() do do error 'io' catch 'io' do append(l, 1); error 'wrapped' end end catch 'wrapped' append(l, 2) finally append(l, 3) end; f(); l", "(list (i 1) (i 2) (i 3))"),
+        ("def r = []; for i in [1, 2] do do do error i catch 1 1 / 0 catch 2 undefined_zz end catch 'ERROR' append(r, i) end end; r", "(list (i 1) (i 2))"),
+        ("do do error 'a' catch undefined_zz 1 end catch 'ERROR' 'outer' end", "(s 111 117 116 101 114)"),
+        ("do do do error 'a' catch 'a' error 'b' end catch 'b' error 'c' end catch 'c' 'third' end", "(s 116 104 105 114 100)"),
+        ("do do error 'a' catch 'a' error 'b' end; 5 catch 'b' 'two statements' end", "(s 116 119 111 32 115 116 97 116 101 109 101 110 116 115)"),
         # error values that cannot be turned into text (an output stream, an object whose _str_ fails), functions, patterns, dates:
         # the handler is chosen by the value, nothing about the value is computed on the way
         ("def o = <*_str_ = fn(self) error 'S'*>; do do error o catch 'ERROR' 'inner' catch 'S' 'innerS' end catch o 'outer' end", "(s 111 117 116 101 114)"),
